@@ -14,8 +14,9 @@ MatchHere(els, s) ==        \* set of k such that els matches the prefix of leng
   IF els = <<>> THEN {0}
   ELSE LET el == els[1] rest == Tail(els) IN
        LET run == CHOOSE m \in 0 .. Len(s) : (\A i \in 1 .. m : ElMatches(el, s[i])) /\ (m = Len(s) \/ ~ElMatches(el, s[m + 1]))
-           lo == IF el.q \in {"1", "+"} THEN 1 ELSE 0
-           hi == IF el.q \in {"1", "?"} THEN (IF run >= 1 THEN 1 ELSE 0) ELSE run
+           \* ({2}: a counted repetition, exactly twice)
+           lo == IF el.q = "{2}" THEN 2 ELSE IF el.q \in {"1", "+"} THEN 1 ELSE 0
+           hi == IF el.q = "{2}" THEN (IF run >= 2 THEN 2 ELSE 0) ELSE IF el.q \in {"1", "?"} THEN (IF run >= 1 THEN 1 ELSE 0) ELSE run
        IN UNION { { k + j : j \in MatchHere(rest, SubSeq(s, k + 1, Len(s))) } : k \in lo .. hi }
 
 RxMatch(p, s) ==
